@@ -4,6 +4,7 @@ import (
 	"bufio"
 	"errors"
 	"fmt"
+	"io"
 	"testing"
 
 	"github.com/netflix/rend/common"
@@ -24,6 +25,7 @@ import (
 // before delegating, panics after delegating, or returns an I/O error.
 
 type faultCtl struct {
+	pval   int // what the injected panic carries: 0 string, 1 io.EOF, 2 another error value, 3 a runtime error
 	armed  bool
 	target string // l1 | l2 | res
 	k      int
@@ -33,6 +35,21 @@ type faultCtl struct {
 }
 
 var errInjected = errors.New("injected I/O error")
+
+// boom panics with the kind of value the plan asks for. Layers underneath rend can
+// panic with anything: a string, an error value such as io.EOF, a runtime error.
+func (c *faultCtl) boom(where string) {
+	switch c.pval {
+	case 1:
+		panic(io.EOF)
+	case 2:
+		panic(errors.New("injected error value (" + where + ")"))
+	case 3:
+		var m map[string]int
+		m[where] = 1 // runtime error: assignment to entry in nil map
+	}
+	panic("injected panic " + where)
+}
 
 // hit reports whether this call is the faulty one and advances the counter.
 func (c *faultCtl) hit(target string) bool {
@@ -58,10 +75,10 @@ func (h faultHandler) guard(call func() error) error {
 	if h.ctl.hit(h.tier) {
 		switch h.ctl.mode {
 		case "panic_before":
-			panic("injected panic before " + h.tier + " call")
+			h.ctl.boom("before " + h.tier + " call")
 		case "panic_after":
 			call()
-			panic("injected panic after " + h.tier + " call")
+			h.ctl.boom("after " + h.tier + " call")
 		default:
 			return errInjected
 		}
@@ -103,14 +120,14 @@ func (h faultHandler) Get(c common.GetRequest) (<-chan common.GetResponse, <-cha
 	if h.ctl.hit(h.tier) {
 		switch h.ctl.mode {
 		case "panic_before":
-			panic("injected panic before " + h.tier + " get")
+			h.ctl.boom("before " + h.tier + " get")
 		case "panic_after":
 			rc, ec := h.Handler.Get(c)
 			for range rc {
 			}
 			for range ec {
 			}
-			panic("injected panic after " + h.tier + " get")
+			h.ctl.boom("after " + h.tier + " get")
 		default:
 			rc := make(chan common.GetResponse)
 			ec := make(chan error, 1)
@@ -126,14 +143,14 @@ func (h faultHandler) GetE(c common.GetRequest) (<-chan common.GetEResponse, <-c
 	if h.ctl.hit(h.tier) {
 		switch h.ctl.mode {
 		case "panic_before":
-			panic("injected panic before " + h.tier + " gete")
+			h.ctl.boom("before " + h.tier + " gete")
 		case "panic_after":
 			rc, ec := h.Handler.GetE(c)
 			for range rc {
 			}
 			for range ec {
 			}
-			panic("injected panic after " + h.tier + " gete")
+			h.ctl.boom("after " + h.tier + " gete")
 		default:
 			rc := make(chan common.GetEResponse)
 			ec := make(chan error, 1)
@@ -155,10 +172,10 @@ func (r faultResponder) guard(call func() error) error {
 	if r.ctl.hit("res") {
 		switch r.ctl.mode {
 		case "panic_before":
-			panic("injected panic before responder call")
+			r.ctl.boom("before responder call")
 		case "panic_after":
 			call()
-			panic("injected panic after responder call")
+			r.ctl.boom("after responder call")
 		default:
 			return errInjected
 		}
@@ -252,7 +269,7 @@ func execC12(t *testing.T, p Plan, src kernel.Source) Result {
 	if p.Mode == "deadlock" {
 		return execC12Deadlock(t, p, src)
 	}
-	ctl := &faultCtl{calls: map[string]int{}, target: p.XS["target"], k: int(p.X["k"]), mode: p.XS["mode"]}
+	ctl := &faultCtl{calls: map[string]int{}, target: p.XS["target"], k: int(p.X["k"]), mode: p.XS["mode"], pval: int(p.X["pval"])}
 	return inBubble(t, p.Seed, src, func(w *kernel.World, res *Result) {
 		w.LogEvents = p.X["log"] != 0
 		w.SegMode = p.Seg
@@ -291,6 +308,9 @@ func execC12(t *testing.T, p Plan, src kernel.Source) Result {
 			cc.Consume(len(reply))
 			closed := cc.C.ClosedByRend()
 			fault := fmt.Sprintf("%s at call #%d of %s", ctl.mode, ctl.k, ctl.target)
+			if ctl.mode != "error" {
+				fault += " carrying " + []string{"a string", "io.EOF", "an error value", "a runtime error"}[ctl.pval]
+			}
 			if i == victimStep {
 				ctl.armed = false
 				if ctl.fired {
@@ -444,7 +464,9 @@ func enumC12(tier string) []Plan {
 										continue
 									}
 									n++
-									out = append(out, c12Plan(uint64(0xC12000+n), cfg, proto, port, v, target, mode, k))
+									pl := c12Plan(uint64(0xC12000+n), cfg, proto, port, v, target, mode, k)
+									pl.X["pval"] = int64(n % 4)
+									out = append(out, pl)
 								}
 							}
 						}
@@ -509,14 +531,16 @@ func genC12(seed uint64, tier string) Plan {
 	if cfg.Shape == "l1only" && target == "l2" {
 		target = "l1"
 	}
-	return c12Plan(seed, cfg, proto, port, pick(g, c12Victims(proto)), target, pick(g, c12Modes), g.n(8))
+	pl := c12Plan(seed, cfg, proto, port, pick(g, c12Victims(proto)), target, pick(g, c12Modes), g.n(8))
+	pl.X["pval"] = int64(g.n(4))
+	return pl
 }
 
 func init() {
 	register(&Prop{
 		ID: "C12", Gen: genC12, Exec: execC12, Enumerate: enumC12, Level: "fault_enumeration",
 		Nontrivial: func(p Plan, r Result) bool { return !r.Trivial },
-		Rule:       "faults are injected through decorators on existing seams (handlers.Handler for L1/L2, protocol.Responder): at the k-th call made while the victim command runs the decorator panics before delegating, panics after delegating, or returns an I/O error. Enumerated part: every command kind (hit and miss variants, single-, multi-key and quiet gets, gat) x {text, binary} x {main, batch port} x {L1-only, L1/L2, batch} x {single, multi reader} x target {L1, L2, responder} x mode x k = 0..4 (thorough: 0..9, every combination); runs in which call #k does not exist are counted as trivial. Seeded part: the same with drawn parameters, plus concurrent programs of 2-4 connections issuing multi-key gets over overlapping keys in opposite orders mixed with writers (deadlock check under kernel-chosen lock grants). Oracles from the instrumented key locks (every Lock/RLock/Unlock of package orcas is logged with the connection it runs for): no lock held after the command ended, never two locks per connection, the next command on the key from another connection completes, after a panic the victim connection is closed; non-trivial = the fault fired / concurrent program; distinct = distinct plan hash",
+		Rule:       "faults are injected through decorators on existing seams (handlers.Handler for L1/L2, protocol.Responder): at the k-th call made while the victim command runs the decorator panics before delegating, panics after delegating (the panic carries, in rotation, a string, io.EOF, another error value or a runtime error), or returns an I/O error. Enumerated part: every command kind (hit and miss variants, single-, multi-key and quiet gets, gat) x {text, binary} x {main, batch port} x {L1-only, L1/L2, batch} x {single, multi reader} x target {L1, L2, responder} x mode x k = 0..4 (thorough: 0..9, every combination); runs in which call #k does not exist are counted as trivial. Seeded part: the same with drawn parameters, plus concurrent programs of 2-4 connections issuing multi-key gets over overlapping keys in opposite orders mixed with writers (deadlock check under kernel-chosen lock grants). Oracles from the instrumented key locks (every Lock/RLock/Unlock of package orcas is logged with the connection it runs for): no lock held after the command ended, never two locks per connection, the next command on the key from another connection completes, after a panic the victim connection is closed; non-trivial = the fault fired / concurrent program; distinct = distinct plan hash",
 		Real:       realFullStack,
 		Stub:       append(append([]string{}, stubFullStack...), "fault decorators around the real handlers and responders", "key locks: channel-based shadow of sync.Mutex/RWMutex, grants are kernel events"),
 		FaultKinds: []string{"panic_before", "panic_after", "error"},
